@@ -323,7 +323,13 @@ func (s *Spec) Ops(st *explore.State) []explore.Op {
 		// it was only simulated): nothing has been observed as far as the chain is concerned
 		ops = append(ops, explore.Op{Name: "FirstObservationDiscarded(" + other + ")", Run: func(c *explore.State) {
 			d := world.Branch(c.Ctx)
-XX
+			r := scen.Vote(s.w, d, other, s.os[other][0], scen.BridgeTokenClaim(other, 1, 5000, scen.ExtAddr(other, other+"-fx-token"), "Function X", "FX", 18, ""))
+			ok(c, r.OK())
+			c.Outcome = "discarded"
+			// ... and a bridge call on that chain is still refused (probe on a second branch that is thrown away too)
+			if pr := s.w.Deliver(world.Branch(c.Ctx), &cctypes.MsgBridgeCall{ChainName: other, Sender: u1.Bech(), To: scen.ExtAddr(other, "callee"), Data: "01", Value: sdkmath.ZeroInt()}); pr.OK() {
+				c.Violate("nothing-built-before-first-observation", sig("bridge-call-built-after-an-observation-that-was-not-committed"), other+": the only observation of this chain happened in an execution that was thrown away, yet a bridge call can be built")
+			}
 		}})
 		ops = append(ops, explore.Op{Name: "BridgeCallOutUnobserved(" + other + ")", Run: func(c *explore.State) {
 			r := s.w.Deliver(c.Ctx, &cctypes.MsgBridgeCall{ChainName: other, Sender: u1.Bech(), To: scen.ExtAddr(other, "callee"), Data: "01", Value: sdkmath.ZeroInt()})
